@@ -28,7 +28,7 @@ import re
 from common import LEAN, hx, setup_repo_import
 
 ID = "C02"
-GENS = ["c02_registry"]
+GENS = ["c02_registry", "c02_ctor"]
 PROOF = "Gallia.Proofs.C02"
 DRIVER = "c02"
 ORACLE = True
@@ -669,6 +669,11 @@ def run(ctx):
     ctx.traces_validated += len(con)
 
 
+    # 4b. the constructor side against Model/UdsRespCtor.lean `construct`: valid, boundary and invalid field values on every
+    #     registry class and the InputOutputControlByIdentifier convenience classes; accepted / rejected, the PDU, and the
+    #     fields the real parser exposes for that PDU
+    _ctor_check(ctx, rows)
+
     # 5. the class-level entry point <Response>.from_pdu(b) of every concrete response class (registry classes and the
     #    convenience subclasses that parse_dynamic never returns)
     import inspect
@@ -760,6 +765,101 @@ def run(ctx):
     rng.shuffle(pool)
     pool = sorted(pool[: ctx.pick(250, 1500)], key=len)
     _stored_check(ctx, pool)
+
+
+def _ctor_eval(cls, args, canon):
+    """-> 'none' | (pdu hex, view of the object's own attributes, view of parse_dynamic(pdu))"""
+    S = _svc()
+    try:
+        o = cls(*args)
+        p = o.pdu
+    except Exception:  # noqa: BLE001
+        return "none"
+    if not isinstance(p, (bytes, bytearray)):
+        return (f"!{type(p).__name__}", "", "reject")
+    own = view_obj(o) if canon else ""
+    try:
+        back = view_obj(S.UDSResponse.parse_dynamic(bytes(p)))
+    except Exception:  # noqa: BLE001
+        back = "reject"
+    return (hx(bytes(p)), own, back)
+
+
+def _ctor_classify(name, target, fam, canon, iv, m):
+    """None, or (category, spec_violated, text).  `target` = the class parse_dynamic must give the PDU back as."""
+    if iv == "none":
+        if m == "none":
+            return None
+        return (f"ctor:{fam}:rejected-where-model-accepts", False, f"{name}(...) refuses field values whose PDU {m.split('pdu=')[-1]} the oracle builds and parses")
+    p, own, back = iv
+    bv, bcls, bfl, bpdu = _parse_view(back)
+    if bv != "ok":
+        return (f"ctor:{fam}:own-parser-{'rejects' if bv == 'reject' else 'keeps-raw'}", True,
+                f"{name}(...) is accepted and serialises to {p}, which gallia's own parser {'rejects' if bv == 'reject' else 'keeps as a raw response'}")
+    if bcls != target:
+        return (f"ctor:{fam}:parsed-as-{bcls}", True, f"{name}(...).pdu = {p} is parsed back as {bcls}")
+    if bpdu != p:
+        return (f"ctor:{fam}:pdu-changes", True, f"{name}(...).pdu = {p} re-serialises as {bpdu} after parsing")
+    if canon and own and name == target:
+        ov = _parse_view(own)
+        if ov[2] != bfl:
+            k = next((k for k in bfl if ov[2].get(k) != bfl[k]), "?")
+            return (f"ctor:{fam}:field-changes:{k}", True, f"{name}(...) holds {k}={ov[2].get(k)} but its PDU {p} parses back with {k}={bfl.get(k)}")
+    if m == "none":
+        return (f"ctor:{fam}:accepted-where-model-none", False, f"{name}(...) accepts field values the model's constructor refuses (PDU {p} parses back unchanged)")
+    if m != back:
+        mv = _parse_view(m)
+        if mv[3] != p:
+            return (f"ctor:{fam}:layout", True, f"{name}(...).pdu = {p}, the ISO layout of these field values is {mv[3]}")
+        return (f"ctor:{fam}:view", False, f"{name}(...): parsed-back view {back} differs from the model's {m}")
+    return None
+
+
+def _ctor_check(ctx, rows):
+    from lib import c02ctor
+
+    S = _svc()
+    rng = ctx.rng
+    n_rand = ctx.pick(6, 40) * (3 if ctx.widened else 1)
+    cases = []   # (class name, target class, family, canonical, python args, driver line)
+    for row in rows:
+        cls = getattr(S, row[0])
+        for form, args, toks, canon in c02ctor.calls(rng, row, S, NRCS, DTCFMTS, n_rand):
+            cases.append((row[0], row[0], row[1], canon, cls, args, " ".join(["con", row[0], form] + toks)))
+    txt = (LEAN / "Gallia" / "Gen" / "C02Ctor.lean").read_text()
+    conv = re.findall(r'\("(\w+)", (\d+)\)', txt.split("def convClasses", 1)[1])
+    for cname, _param in conv:
+        cls = getattr(S, cname)
+        for did, states in c02ctor.conv_calls(rng, n_rand):
+            cases.append((cname, "InputOutputControlByIdentifierResponse", "InputOutputControlByIdentifierResponse/subclass", True, cls,
+                          (did, states), f"conv {cname} {did} {hx(states)}"))
+    model = ctx.lean([c[6] for c in cases])
+    found = {}
+    n_acc = 0
+    for (name, target, fam, canon, cls, args, line), m in zip(cases, model):
+        ctx.ev()
+        iv = _ctor_eval(cls, args, canon)
+        n_acc += iv != "none"
+        ctx.kind("ctor:" + ("accepted" if iv != "none" else "refused"))
+        if iv != "none":
+            ctx.nontrivial(line)
+        if m == "bad-op":
+            ctx.disagree(f"ctor:driver:{line.split(' ')[2]}", "the model driver cannot read a generated constructor call", {"call": line},
+                         impl=str(iv), model=m, spec_violated=False, site="Driver/C02.lean")
+            continue
+        r = _ctor_classify(name, target, fam, canon, iv, m)
+        if r:
+            best = found.get(r[0])
+            if best is None or (len(line), line) < (len(best[0]), best[0]):
+                found[r[0]] = (line, name, iv, m, r)
+    ctx.traces_validated += len(cases)
+    ctx.notes["ctor_calls"] = len(cases)
+    ctx.notes["ctor_calls_accepted"] = n_acc
+    ctx.exhaustive_parts.append(f"constructor calls: every int parameter of every response class at both sides of its width / range check, "
+                                f"every NRC, every DTC format ({len(cases)} calls, {n_acc} accepted)")
+    for cat, (line, name, iv, m, r) in found.items():
+        ctx.disagree(cat, f"{line[4:]}: {r[2]}", {"call": line, "class": name}, impl=("none" if iv == "none" else f"pdu={iv[0]} parsed-back: {iv[2]}"),
+                     model=m, spec_violated=r[1], site=f"{name}.__init__/.pdu")
 
 
 def _stored_check(ctx, pdus):
